@@ -26,6 +26,34 @@ def special_payloads(bundle, rnd):
     # payloads that are themselves complete, checksum-consistent frames (a frame inside a frame)
     out += [pl for pl in framelike_payloads(rnd) if len(pl) >= 8]
     out += crc_targeted_payloads(bundle, rnd)
+    out += texty_payloads(bundle, rnd, 12, defined_ok=False)      # (stubs only: every special payload must be deliverable)
+    return out
+
+
+def texty_payloads(bundle, rnd, n=24, defined_ok=True):
+    """
+    Binary payloads that happen to LOOK like text: every byte an ASCII hex digit (even and odd
+    lengths), base64 alphabet, printable ASCII, digits only.  The first two bytes give the message
+    number: both unknown numbers (stubs) and numbers with a payload definition occur (whether such a
+    payload decodes is for the specification to say).
+    """
+    hexd = b"0123456789abcdefABCDEF"
+    alph = [hexd, hexd, b"0123456789", b"ABCDEFGHIJKLMNOPQRSTUVWXYZabcdefghijklmnopqrstuvwxyz0123456789+/=", bytes(range(0x20, 0x7F))]
+    defined = {int(i.split("_")[0]) for i in bundle["defs"]}
+    out = []
+    heads = [(a, b) for a in hexd for b in hexd]
+    rnd.shuffle(heads)
+    want_def = [h for h in heads if ((h[0] << 4) | (h[1] >> 4)) in defined][: n // 3] if defined_ok else []
+    for k in range(n):
+        al = alph[k % len(alph)]
+        if k < len(want_def):
+            head, al = bytes(want_def[k]), hexd
+        else:
+            head = bytes([rnd.choice(al), rnd.choice(al)])
+            while not defined_ok and ((head[0] << 4) | (head[1] >> 4)) in defined:
+                head = bytes([rnd.choice(al), rnd.choice(al)])
+        ln = rnd.choice([2, 4, 6, 12, 13, 20, 38, 64])
+        out.append(head + bytes(rnd.choice(al) for _ in range(ln - 2)))
     return out
 
 
@@ -116,18 +144,19 @@ def crc_target_stream(bundle, rnd, pool):
 
 def validate_values():
     """
-    -> (values meaning "checksum validation ON", values meaning OFF): the library's exported VAL*
-    flag constants, each OR-ed with / without VALCKSUM (on the pinned tree: ([1], [0])).  A tree
-    that exports further validation flags gets their combinations exercised as well.
+    -> (values meaning "checksum validation ON", values meaning OFF).  `validate` is a set of flags
+    (the library tests `validate & VALCKSUM`; its sister libraries share masks such as
+    VALCKSUM | VALMSGID): ON = every value with the checksum bit, OFF = every value without it.
+    Included: the documented 1 / 0, the checksum bit with other bits (3, 5, 0x11, 0xFF), other bits
+    alone (2, 4, 0x10), and every combination of the VAL* constants the library exports.
     """
     import pyrtcm.rtcmtypes_core as core
 
     flags = sorted({v for k, v in vars(core).items() if k.startswith("VAL") and isinstance(v, int) and not isinstance(v, bool) and 0 <= v < 1 << 16})
     cks = getattr(core, "VALCKSUM", 1)
-    on = sorted({cks} | {cks | v for v in flags})
     allv = 0
     for v in flags:
         allv |= v
-    on = sorted(set(on) | {allv | cks})
-    off = sorted({0} | {v for v in flags if not v & cks} | {allv & ~cks})
+    on = sorted({cks, cks | 2, cks | 4, cks | 0x10, 0xFF | cks, allv | cks} | {cks | v for v in flags})
+    off = sorted(({0, 2, 4, 0x10, allv & ~cks} | {v for v in flags}) - {v for v in ({0, 2, 4, 0x10, allv} | set(flags)) if v & cks})
     return on, off
